@@ -192,7 +192,7 @@ Proof.
            ++ intros r I. apply p_refs0 in I. unfold rest in I. now apply filter_In in I.
         -- (* other owners remain *)
            assert (Inv1 : winv w (set_rc s (h_tgt h) (S n))).
-           { repeat split; simpl; auto.
+           { repeat split; simpl; auto; try (now eauto).
              - intros id. pose proof (A id) as Aid. rewrite own_countH_cons in Aid.
                destruct (Nat.eq_dec id (h_tgt h)) as [->|Ne].
                + rewrite upd_same. rewrite Ot in Aid. lia.
@@ -208,15 +208,33 @@ Proof.
            specialize (IH _ _ _ _ Inv1 Fuel1 R). destruct IH. simpl in *. constructor; auto.
       * (* non-owning handle: nothing to do *)
         assert (Inv1 : winv w s).
-        { repeat split; auto. intros id. rewrite (A id), own_countH_cons.
+        { repeat split; auto; try apply B; try (now eauto). intros id. rewrite (A id), own_countH_cons.
           assert (owns id h = false) as Oh by (unfold owns; now rewrite Own). now rewrite Oh. }
         assert (Fuel1 : length w + length (refs s) <= f) by (simpl in *; lia).
         exact (IH _ _ _ _ Inv1 Fuel1 R).
 Qed.
 
+(* destroying handles never removes a handle from a root place: only the slots of destroyed objects are emptied *)
+Lemma release_keep : forall fuel W s s' ev l h,
+  release fuel W s = (s', ev) -> In (l, h) (refs s) -> is_root l = true -> In (l, h) (refs s').
+Proof.
+  induction fuel as [|f IH]; intros W s s' ev l h R I Rt; simpl in R.
+  - inversion R; subst; auto.
+  - destruct W as [|h0 w]; [inversion R; subst; auto|].
+    destruct (h_own h0).
+    + destruct (rc s (h_tgt h0)) as [|[|n]].
+      * destruct (release f w s) as [s1 e1] eqn:R1. inversion R; subst. eapply IH; eauto.
+      * destruct (release f (w ++ map snd (filter (fun r => is_slot_of (h_tgt h0) (fst r)) (refs s)))
+                    (set_refs (kill s (h_tgt h0)) (filter (fun r => negb (is_slot_of (h_tgt h0) (fst r))) (refs s)))) as [s1 e1] eqn:R1.
+        inversion R; subst. eapply IH; eauto. simpl. apply filter_In. split; auto. simpl. destruct l; [reflexivity|discriminate].
+      * eapply IH; eauto.
+    + eapply IH; eauto.
+Qed.
+
 Lemma drop_where_post : forall P s s' ev,
   wf s -> drop_where P s = (s', ev) ->
-  post s s' ev /\ (forall r, In r (refs s') -> P (fst r) = false).
+  post s s' ev /\ (forall r, In r (refs s') -> P (fst r) = false) /\
+  (forall l h, In (l, h) (refs s) -> is_root l = true -> P l = false -> In (l, h) (refs s')).
 Proof.
   intros P s s' ev W R. unfold drop_where in R.
   set (gone := filter (fun r => P (fst r)) (refs s)) in *.
@@ -228,10 +246,13 @@ Proof.
     - intros o k h I. unfold kept in I. apply filter_In in I as [I _]. eapply C; eauto. }
   assert (Fuel : length (map snd gone) + length (refs (set_refs s kept)) <= S (length (refs s))).
   { simpl. rewrite map_length. pose proof (filter_split_length _ (fun r => P (fst r)) (refs s)) as L. unfold gone, kept. lia. }
+  assert (K : forall l h, In (l, h) (refs s) -> is_root l = true -> P l = false -> In (l, h) (refs s')).
+  { intros l h I Rt E. eapply release_keep; eauto. simpl. unfold kept. apply filter_In. split; auto. simpl. now rewrite E. }
   pose proof (release_post _ _ _ _ _ Inv Fuel R) as Po. destruct Po. simpl in *.
-  split.
+  split; [|split].
   - constructor; auto. intros r I. apply p_refs0 in I. unfold kept in I. now apply filter_In in I.
   - intros r I. apply p_refs0 in I. unfold kept in I. apply filter_In in I as [_ I]. now apply negb_true_iff in I.
+  - exact K.
 Qed.
 
 (* ------------------------------------------------------------------------------------------ *)
@@ -340,7 +361,7 @@ Proof.
     destruct (from l0) eqn:F; inversion E; subst; eauto.
 Qed.
 
-Ltac inv H := inversion H; subst; clear H.
+Ltac inv H := injection H as <- <-.
 
 Lemma step_spost : forall s o s' ev, wf s -> step s o = (s', ev) -> spost s s' ev.
 Proof.
@@ -417,7 +438,7 @@ Proof.
   - (* PCallEnd *)
     destruct (calls s) as [|[|c]] eqn:Cs.
     + inv St. apply Same. intros e [<-|[]]; eauto.
-    + destruct (drop_where (fun l => is_param_of (depth s) l || is_conv l) s) as [s1 ev1] eqn:R. inv St.
+    + destruct (drop_where (fun l => is_param_of lvl l || is_conv l) s) as [s1 ev1] eqn:R. inv St.
       apply Dropped in R. destruct R. constructor; auto.
     + inv St. apply spost_same; auto. intros e [].
   - (* PStmtEnd *) eapply Dropped; eauto.
@@ -436,16 +457,484 @@ Definition hist (s : state) (evs : list event) : Prop :=
   (forall id, In (Destroyed id) evs -> id < next s).
 
 Lemma hist_init : hist init [].
-Proof. repeat split; simpl; intros; try lia; try contradiction. constructor. Qed.
+Proof.
+  split; [|split].
+  - intros id L. simpl in L. lia.
+  - constructor.
+  - intros id [].
+Qed.
+
+Lemma nodup_app : forall A (a b : list A), NoDup a -> NoDup b -> (forall x, In x a -> ~ In x b) -> NoDup (a ++ b).
+Proof.
+  induction a as [|x a IH]; intros b Na Nb D; simpl; auto.
+  inversion Na; subst. constructor.
+  - intros I. apply in_app_or in I as [I|I]; [auto|]. apply (D x); [now left|auto].
+  - apply IH; auto. intros y I. apply D. now right.
+Qed.
 
 Lemma hist_step : forall s s' evs ev, wf s -> hist s evs -> spost s s' ev -> hist s' (evs ++ ev).
 Proof.
-  intros s s' evs ev W (H1 & H2 & H3) []. repeat split.
-  - intros Dd. apply in_or_app. destruct (lt_dec id (next s)) as [L|L].
-    + destruct (alive s id) eqn:E; [right; auto|left; now apply H1].
-    + rewrite sp_new0 in Dd by lia. discriminate.
-  - intros I. apply in_app_or in I as [I|I].
-    + pose proof (H3 _ I) as L. apply H1 in I; auto. destruct (alive s' id) eqn:E; auto. apply sp_mono0 in E; auto. congruence.
-    + now apply sp_was0 in I.
-  - rewrite destroyed_ids_app. apply NoDup_app_iff'.
-Abort.
+  intros s s' evs ev W (H1 & H2 & H3) []. split; [|split].
+  - intros id Ln. split.
+    + intros Dd. apply in_or_app. destruct (lt_dec id (next s)) as [L|L].
+      * destruct (alive s id) eqn:E; [right; auto|left; now apply H1].
+      * rewrite sp_new0 in Dd by lia. discriminate.
+    + intros I. apply in_app_or in I as [I|I].
+      * pose proof (H3 _ I) as L. apply H1 in I; auto. destruct (alive s' id) eqn:E; auto. apply sp_mono0 in E; auto. congruence.
+      * now apply sp_was0 in I.
+  - rewrite destroyed_ids_app. apply nodup_app; auto.
+    intros id I1 I2. apply in_destroyed_ids in I1, I2.
+    pose proof (H3 _ I1) as L. apply H1 in I1; auto. apply sp_was0 in I2 as [I2 _]. congruence.
+  - intros id I. apply in_app_or in I as [I|I].
+    + apply H3 in I. lia.
+    + apply sp_was0 in I as [I _]. pose proof (wf_lt_next s id W I). lia.
+Qed.
+
+Lemma run_inv : forall ops s evs s' ev,
+  wf s -> hist s evs -> run ops s = (s', ev) ->
+  wf s' /\ hist s' (evs ++ ev) /\ (forall e, In e ev -> is_fault e = true -> exists id, e = UseAfterFree id).
+Proof.
+  induction ops as [|o ops IH]; intros s evs s' ev W H R; simpl in R.
+  - injection R as <- <-. rewrite app_nil_r. split; [auto|split; [auto|intros e []]].
+  - destruct (step s o) as [s1 e1] eqn:St. destruct (run ops s1) as [s2 e2] eqn:Rn. injection R as <- <-.
+    pose proof (step_spost _ _ _ _ W St) as SP.
+    pose proof (hist_step _ _ _ _ W H SP) as H1.
+    destruct (IH _ _ _ _ (sp_wf _ _ _ SP) H1 Rn) as (W2 & H2 & F2).
+    rewrite app_assoc. split; [auto|split; [auto|]].
+    intros e I F. apply in_app_or in I as [I|I]; [eapply sp_nofault; eauto|auto].
+Qed.
+
+Lemma run_app : forall a b s,
+  run (a ++ b) s = let (s1, e1) := run a s in let (s2, e2) := run b s1 in (s2, e1 ++ e2).
+Proof.
+  induction a as [|o a IH]; intros b s; simpl.
+  - destruct (run b s); reflexivity.
+  - destruct (step s o) as [s1 e1]. rewrite IH. destruct (run a s1) as [s2 e2]. destruct (run b s2) as [s3 e3].
+    now rewrite app_assoc.
+Qed.
+
+(* ------------------------------------------------------------------------------------------ *)
+(* (i) destroyed at most once; (ii) the counter is the number of owning referrers, and an       *)
+(*     object with an owning referrer is alive                                                *)
+(* ------------------------------------------------------------------------------------------ *)
+Theorem destroyed_at_most_once : forall ops s ev, run ops init = (s, ev) -> NoDup (destroyed_ids ev).
+Proof.
+  intros ops s ev R. destruct (run_inv _ _ _ _ _ wf_init hist_init R) as (_ & (_ & N & _) & _). exact N.
+Qed.
+
+Theorem destroyed_iff_dead : forall ops s ev id,
+  run ops init = (s, ev) -> id < next s -> (alive s id = false <-> In (Destroyed id) ev).
+Proof.
+  intros ops s ev id R L. destruct (run_inv _ _ _ _ _ wf_init hist_init R) as (_ & (H & _ & _) & _). now apply H.
+Qed.
+
+Theorem refcount_invariant : forall ops s ev, run ops init = (s, ev) ->
+  (forall id, rc s id = own_count id (refs s)) /\
+  (forall id, 0 < own_count id (refs s) <-> alive s id = true) /\
+  (forall o k h, In (LSlot o k, h) (refs s) -> alive s o = true).
+Proof.
+  intros ops s ev R. destruct (run_inv _ _ _ _ _ wf_init hist_init R) as (W & _ & _).
+  split; [|split].
+  - intros id. now apply wf_rc.
+  - intros id. symmetry. now apply wf_alive_iff.
+  - destruct W as (_ & _ & C & _). exact C.
+Qed.
+
+Theorem alive_while_owned : forall ops s ev l h,
+  run ops init = (s, ev) -> In (l, h) (refs s) -> h_own h = true -> alive s (h_tgt h) = true.
+Proof.
+  intros ops s ev l h R I O. destruct (run_inv _ _ _ _ _ wf_init hist_init R) as (W & _ & _). eapply wf_own_alive; eauto.
+Qed.
+
+Theorem no_mechanism_fault : forall ops s ev e,
+  run ops init = (s, ev) -> In e ev -> e <> OutOfFuel /\ (forall id, e <> RcUnderflow id).
+Proof.
+  intros ops s ev e R I. destruct (run_inv _ _ _ _ _ wf_init hist_init R) as (_ & _ & F).
+  split; [intros ->|intros id ->]; destruct (F _ I eq_refl) as [x E]; discriminate.
+Qed.
+
+(* ------------------------------------------------------------------------------------------ *)
+(* (iii) destroyed in the very step that removes the last owning referrer                     *)
+(* ------------------------------------------------------------------------------------------ *)
+Lemma last_owner_wf : forall s o s' ev id,
+  wf s -> step s o = (s', ev) -> alive s id = true ->
+  (own_count id (refs s') = 0 <-> In (Destroyed id) ev).
+Proof.
+  intros s o s' ev id W St A. pose proof (step_spost _ _ _ _ W St) as [].
+  pose proof (wf_alive_iff s' id sp_wf0) as I. split.
+  - intros Z. apply sp_dead0; auto. destruct (alive s' id); auto. assert (0 < own_count id (refs s')) by now apply I. lia.
+  - intros D. apply sp_was0 in D as [_ D]. destruct (own_count id (refs s')); auto.
+    assert (alive s' id = true) by (apply I; lia). congruence.
+Qed.
+
+Theorem destroyed_with_last_owner : forall ops s ev0 o s' ev id,
+  run ops init = (s, ev0) -> step s o = (s', ev) -> alive s id = true ->
+  (own_count id (refs s') = 0 <-> In (Destroyed id) ev).
+Proof.
+  intros ops s ev0 o s' ev id R St A. destruct (run_inv _ _ _ _ _ wf_init hist_init R) as (W & _ & _).
+  eapply last_owner_wf; eauto.
+Qed.
+
+(* ------------------------------------------------------------------------------------------ *)
+(* engine destruction                                                                         *)
+(* ------------------------------------------------------------------------------------------ *)
+Lemma list_max_ge : forall l x, In x l -> x <= list_max l.
+Proof.
+  induction l as [|a l IH]; intros x []; simpl.
+  - subst. lia.
+  - specialize (IH _ H). lia.
+Qed.
+
+Lemma only_slots_acyclic_dead : forall s,
+  wf s -> (forall l h, In (l, h) (refs s) -> is_root l = false) -> acyclic s -> forall id, alive s id = false.
+Proof.
+  intros s W Sl [rank Rk] id0.
+  set (B := S (list_max (map rank (seq 0 (next s))))).
+  assert (Bd : forall id, alive s id = true -> rank id < B).
+  { intros id A. apply (wf_lt_next s id W) in A. unfold B.
+    assert (rank id <= list_max (map rank (seq 0 (next s)))); [|lia].
+    apply list_max_ge. apply in_map. apply in_seq. lia. }
+  assert (Cl : forall n id, B - rank id <= n -> alive s id = true -> False).
+  { induction n as [|n IH]; intros id Le A.
+    - apply Bd in A. lia.
+    - pose proof A as A'. apply (wf_alive_iff s id W) in A'. apply own_count_pos_in in A' as (l & h & I & O & T).
+      pose proof (Sl _ _ I) as NR. destruct l as [r|o k]; [discriminate|].
+      destruct W as (_ & _ & C & _). pose proof (C _ _ _ I) as Ao.
+      pose proof (Rk _ _ _ I O) as Lt. rewrite T in Lt.
+      apply (IH o); auto. pose proof (Bd _ Ao). pose proof (Bd _ A). lia. }
+  destruct (alive s id0) eqn:E; auto. exfalso. eapply Cl; eauto.
+Qed.
+
+(* whatever survives the destruction of the engine and of the C++ side's handles is held from inside another survivor *)
+Lemma only_slots_leftover : forall s id,
+  wf s -> (forall l h, In (l, h) (refs s) -> is_root l = false) -> alive s id = true ->
+  exists o k h, In (LSlot o k, h) (refs s) /\ h_own h = true /\ h_tgt h = id /\ alive s o = true.
+Proof.
+  intros s id W Sl A. apply (wf_alive_iff s id W) in A. apply own_count_pos_in in A as (l & h & I & O & T).
+  pose proof (Sl _ _ I) as NR. destruct l as [r|o k]; [discriminate|].
+  exists o, k, h. repeat split; auto. destruct W as (_ & _ & C & _). eapply C; eauto.
+Qed.
+
+Lemma engine_end_only_slots : forall s0 s ev,
+  wf s0 -> run [PEngineEnd; PCxxRelease] s0 = (s, ev) -> forall l h, In (l, h) (refs s) -> is_root l = false.
+Proof.
+  intros s0 s ev W R l h I. simpl in R.
+  destruct (drop_where (fun l => is_root l && negb (is_cxx l)) s0) as [s1 e1] eqn:D1.
+  destruct (drop_where is_cxx s1) as [s2 e2] eqn:D2. injection R as <- <-.
+  apply drop_where_post in D1 as (P1 & N1 & _); auto.
+  apply drop_where_post in D2 as (P2 & N2 & _); [|apply P1].
+  pose proof (N2 _ I) as C2. pose proof (N1 _ (p_refs _ _ _ P2 _ I)) as C1. simpl in *.
+  destruct (is_root l); auto. simpl in C1. rewrite C2 in C1. discriminate.
+Qed.
+
+Theorem engine_end_exactly_once : forall ops s ev,
+  run (ops ++ [PEngineEnd; PCxxRelease]) init = (s, ev) -> acyclic s ->
+  forall id, id < next s -> count_occ Nat.eq_dec (destroyed_ids ev) id = 1.
+Proof.
+  intros ops s ev R Ac id L.
+  pose proof R as R0. rewrite run_app in R0.
+  destruct (run ops init) as [s1 e1] eqn:R1. destruct (run [PEngineEnd; PCxxRelease] s1) as [s2 e2] eqn:R2. injection R0 as <- <-.
+  destruct (run_inv _ _ _ _ _ wf_init hist_init R1) as (W1 & _ & _).
+  destruct (run_inv _ _ _ _ _ wf_init hist_init R) as (W & (H & N & _) & _).
+  apply (proj1 (NoDup_count_occ' Nat.eq_dec _) N). apply in_destroyed_ids. apply H; auto.
+  apply only_slots_acyclic_dead; auto. eapply (engine_end_only_slots s1); eauto.
+Qed.
+
+Theorem engine_end_leftover_is_held_inside : forall ops s ev id,
+  run (ops ++ [PEngineEnd; PCxxRelease]) init = (s, ev) -> alive s id = true ->
+  exists o k h, In (LSlot o k, h) (refs s) /\ h_own h = true /\ h_tgt h = id /\ alive s o = true.
+Proof.
+  intros ops s ev id R A.
+  pose proof R as R0. rewrite run_app in R0.
+  destruct (run ops init) as [s1 e1] eqn:R1. destruct (run [PEngineEnd; PCxxRelease] s1) as [s2 e2] eqn:R2. injection R0 as <- <-.
+  destruct (run_inv _ _ _ _ _ wf_init hist_init R1) as (W1 & _ & _).
+  destruct (run_inv _ _ _ _ _ wf_init hist_init R) as (W & _ & _).
+  apply only_slots_leftover; auto. eapply (engine_end_only_slots s1); eauto.
+Qed.
+
+(* ------------------------------------------------------------------------------------------ *)
+(* (iv) non-owning handles                                                                    *)
+(* ------------------------------------------------------------------------------------------ *)
+Lemma covered_alive : forall s l h, wf s -> covered s -> In (l, h) (refs s) -> alive s (h_tgt h) = true.
+Proof.
+  intros s l h W Cv I. destruct (h_own h) eqn:O.
+  - eapply wf_own_alive; eauto.
+  - apply wf_alive_iff; auto. eapply Cv; eauto.
+Qed.
+
+Lemma resolve_dead : forall s p id, resolve s p = RDead id -> exists l h, In (l, h) (refs s) /\ h_tgt h = id /\ alive s id = false.
+Proof.
+  induction p as [r|q IH k]; intros id H; simpl in H; [discriminate|].
+  destruct (resolve s q) as [l|id'|] eqn:R; try discriminate.
+  - destruct (find_ref l s) as [h|] eqn:F; try discriminate.
+    destruct (alive s (h_tgt h)) eqn:A; inversion H; subst.
+    apply find_ref_in in F as [l' F]. eauto.
+  - inversion H; subst. now apply IH.
+Qed.
+
+Lemma step_uaf : forall s o s' ev id,
+  wf s -> step s o = (s', ev) -> In (UseAfterFree id) ev ->
+  exists l h, In (l, h) (refs s) /\ h_tgt h = id /\ alive s id = false.
+Proof.
+  intros s o s' ev id W St I.
+  assert (Dr : forall P s1 ev1, drop_where P s = (s1, ev1) -> In (UseAfterFree id) ev1 -> False).
+  { intros P s1 ev1 R I1. apply drop_where_post in R as [R _]; auto. apply (p_only _ _ _ R) in I1 as [x E]. discriminate. }
+  destruct o; simpl in St.
+  - unfold with_dst in St. destruct (resolve s dst) as [l|x|] eqn:R; inv St; simpl in I; try tauto;
+      destruct I as [E|[]]; inversion E; subst; try discriminate. eapply resolve_dead; eauto.
+  - unfold with_src, with_dst, handle_at in St.
+    destruct (resolve s src) as [ls|x|] eqn:Rs; [destruct (find_ref ls s) as [h|] eqn:F| |].
+    + destruct (resolve s dst) as [l|x|] eqn:R.
+      * destruct (h_own h && negb (alive s (h_tgt h))) eqn:G; inv St; simpl in I; try tauto.
+        destruct I as [E|[]]. inversion E; subst. apply andb_true_iff in G as [_ G]. apply negb_true_iff in G.
+        apply find_ref_in in F as [l' F]. eauto.
+      * inv St. destruct I as [E|[]]. inversion E; subst. eapply resolve_dead; eauto.
+      * inv St. destruct I as [E|[]]. discriminate.
+    + inv St. destruct I as [E|[]]. discriminate.
+    + inv St. destruct I as [E|[]]. inversion E; subst. eapply resolve_dead; eauto.
+    + inv St. destruct I as [E|[]]. discriminate.
+  - unfold with_src, with_dst, handle_at in St.
+    destruct (resolve s src) as [ls|x|] eqn:Rs; [destruct (find_ref ls s) as [h|] eqn:F| |].
+    + destruct (resolve s dst) as [l|x|] eqn:R; inv St; simpl in I; try tauto;
+        destruct I as [E|[]]; inversion E; subst. eapply resolve_dead; eauto.
+    + inv St. destruct I as [E|[]]. discriminate.
+    + inv St. destruct I as [E|[]]. inversion E; subst. eapply resolve_dead; eauto.
+    + inv St. destruct I as [E|[]]. discriminate.
+  - unfold with_src, with_dst, handle_at in St.
+    destruct (resolve s src) as [ls|x|] eqn:Rs; [destruct (find_ref ls s) as [h|] eqn:F| |].
+    + destruct (resolve s dst) as [l|x|] eqn:R.
+      * destruct (alive s (h_tgt h)) eqn:A; inv St; destruct I as [E|[]]; inversion E; subst.
+        apply find_ref_in in F as [l' F]. eauto.
+      * inv St. destruct I as [E|[]]. inversion E; subst. eapply resolve_dead; eauto.
+      * inv St. destruct I as [E|[]]. discriminate.
+    + inv St. destruct I as [E|[]]. discriminate.
+    + inv St. destruct I as [E|[]]. inversion E; subst. eapply resolve_dead; eauto.
+    + inv St. destruct I as [E|[]]. discriminate.
+  - destruct (resolve s src) as [ls|x|] eqn:Rs; [destruct (find_ref ls s) as [h|] eqn:F| |].
+    + unfold with_dst in St. destruct (resolve s dst) as [l|x|] eqn:R; inv St; simpl in I; try tauto;
+        destruct I as [E|[]]; inversion E; subst. eapply resolve_dead; eauto.
+    + inv St. destruct I as [E|[]]. discriminate.
+    + inv St. destruct I as [E|[]]. inversion E; subst. eapply resolve_dead; eauto.
+    + inv St. destruct I as [E|[]]. discriminate.
+  - destruct (resolve s p) as [l|x|] eqn:R.
+    + exfalso. eapply Dr; eauto.
+    + inv St. destruct I as [E|[]]. inversion E; subst. eapply resolve_dead; eauto.
+    + inv St. destruct I as [E|[]]. discriminate.
+  - unfold with_src, handle_at in St.
+    destruct (resolve s p) as [ls|x|] eqn:Rs; [destruct (find_ref ls s) as [h|] eqn:F| |].
+    + inv St. destruct I as [E|[]]. destruct (alive s (h_tgt h)) eqn:A; inversion E; subst.
+      apply find_ref_in in F as [l' F]. eauto.
+    + inv St. destruct I as [E|[]]. discriminate.
+    + inv St. destruct I as [E|[]]. inversion E; subst. eapply resolve_dead; eauto.
+    + inv St. destruct I as [E|[]]. discriminate.
+  - inv St. destruct I.
+  - destruct (depth s) as [|d]; [inv St; destruct I as [E|[]]; discriminate|].
+    destruct (drop_where (in_scope (S d)) s) as [s1 ev1] eqn:R. inv St. exfalso. eapply Dr; eauto.
+  - inv St. destruct I.
+  - destruct (calls s) as [|[|c]].
+    + inv St. destruct I as [E|[]]; discriminate.
+    + destruct (drop_where (fun l => is_param_of lvl l || is_conv l) s) as [s1 ev1] eqn:R. inv St. exfalso. eapply Dr; eauto.
+    + inv St. destruct I.
+  - exfalso. eapply Dr; eauto.
+  - inv St. destruct I as [E|[]]; discriminate.
+  - exfalso. eapply Dr; eauto.
+  - exfalso. eapply Dr; eauto.
+Qed.
+
+Lemma step_no_uaf : forall s o s' ev id, wf s -> covered s -> step s o = (s', ev) -> ~ In (UseAfterFree id) ev.
+Proof.
+  intros s o s' ev id W Cv St I. destruct (step_uaf _ _ _ _ _ W St I) as (l & h & In_ & T & D).
+  pose proof (covered_alive _ _ _ W Cv In_). congruence.
+Qed.
+
+Lemma run_no_uaf : forall ops s s' ev id,
+  wf s -> Forall covered (trace ops s) -> run ops s = (s', ev) -> ~ In (UseAfterFree id) ev.
+Proof.
+  induction ops as [|o ops IH]; intros s s' ev id W Cv R; simpl in R.
+  - injection R as <- <-. intros [].
+  - destruct (step s o) as [s1 e1] eqn:St. destruct (run ops s1) as [s2 e2] eqn:Rn. injection R as <- <-.
+    simpl in Cv. inversion Cv; subst. rewrite St in H2. simpl in H2.
+    intros I. apply in_app_or in I as [I|I].
+    + eapply step_no_uaf; eauto.
+    + exact (IH s1 s2 e2 id (sp_wf _ _ _ (step_spost _ _ _ _ W St)) H2 Rn I).
+Qed.
+
+(* The side condition, stated exactly: in every state the run goes through, each non-owning handle is covered by an
+   owning referrer of the same object (its lifetime lies within that of an owner). *)
+Theorem no_use_after_free_if_covered : forall ops s ev,
+  Forall covered (trace ops init) -> run ops init = (s, ev) ->
+  forall e, In e ev -> is_fault e = false.
+Proof.
+  intros ops s ev Cv R e I. destruct (is_fault e) eqn:F; auto.
+  destruct (run_inv _ _ _ _ _ wf_init hist_init R) as (_ & _ & Fl).
+  destruct (Fl _ I F) as [id ->]. exfalso. eapply run_no_uaf; eauto. exact wf_init.
+Qed.
+
+(* a run without non-owning handles satisfies the side condition trivially *)
+Definition owning_only (o : prim) : bool := match o with PBorrow _ _ => false | _ => true end.
+
+(* ------------------------------------------------------------------------------------------ *)
+(* a syntactic discipline that implies the side condition                                     *)
+(* ------------------------------------------------------------------------------------------ *)
+Lemma nested_covered : forall s, nested s -> covered s.
+Proof.
+  intros s [_ N] l h I O. destruct (N l h I O) as (db & _ & d & n & _ & Io). eapply in_own_count_pos; eauto.
+Qed.
+
+Lemma root_eqb_eq : forall a b, root_eqb a b = true -> a = b.
+Proof.
+  intros [] []; simpl; intros H; try discriminate;
+    repeat match goal with
+           | H : _ && _ = true |- _ => apply andb_true_iff in H as [? ?]
+           | H : (_ =? _) = true |- _ => apply Nat.eqb_eq in H; subst
+           end; reflexivity.
+Qed.
+
+Lemma loc_eqb_eq : forall a b, loc_eqb a b = true -> a = b.
+Proof.
+  intros [r|o k] [r'|o' k']; simpl; intros H; try discriminate.
+  - apply root_eqb_eq in H. now subst.
+  - apply andb_true_iff in H as [H1 H2]. apply Nat.eqb_eq in H1, H2. now subst.
+Qed.
+
+Lemma find_ref_in_loc : forall l s h, find_ref l s = Some h -> In (l, h) (refs s).
+Proof.
+  intros l s h H. unfold find_ref in H.
+  destruct (filter (fun r => loc_eqb (fst r) l) (refs s)) as [|[l' h'] t] eqn:E; [discriminate|].
+  inversion H; subst. assert (In (l', h) (filter (fun r => loc_eqb (fst r) l) (refs s))) as I by (rewrite E; now left).
+  apply filter_In in I as [I L]. simpl in L. apply loc_eqb_eq in L. now subst.
+Qed.
+
+Lemma resolve_var : forall s p d n, resolve s p = RLoc (LRoot (RVar d n)) -> p = PRoot (RVar d n).
+Proof.
+  intros s [r|q k] d n H; simpl in H.
+  - now inversion H.
+  - destruct (resolve s q); try discriminate. destruct (find_ref l s); try discriminate.
+    destruct (alive s (h_tgt h)); discriminate.
+Qed.
+
+(* adding a handle: an owning one anywhere (a variable place must belong to a live scope), or a non-owning one
+   into a variable whose scope is inside that of a variable owning the same object *)
+Lemma nested_add : forall s s' l h,
+  nested s -> depth s' = depth s -> refs s' = (l, h) :: refs s ->
+  (forall d n, l = LRoot (RVar d n) -> d <= depth s) ->
+  (h_own h = false -> exists db, var_depth l = Some db /\ exists d n, d <= db /\ In (LRoot (RVar d n), mkH true (h_tgt h)) (refs s)) ->
+  nested s'.
+Proof.
+  intros s s' l h [N1 N2] D R V B. split.
+  - intros d n h0 I. rewrite R in I. rewrite D. destruct I as [E|I]; [inversion E; subst; eauto|eauto].
+  - intros l0 h0 I O. rewrite R in I. rewrite R. destruct I as [E|I].
+    + inversion E; subst. destruct (B O) as (db & Vd & d & n & Le & Io). exists db. split; auto. exists d, n. split; auto. now right.
+    + destruct (N2 _ _ I O) as (db & Vd & d & n & Le & Io). exists db. split; auto. exists d, n. split; auto. now right.
+Qed.
+
+Lemma nested_drop_novar : forall P s s1 ev,
+  wf s -> nested s -> (forall d n, P (LRoot (RVar d n)) = false) -> drop_where P s = (s1, ev) -> nested s1.
+Proof.
+  intros P s s1 ev W [N1 N2] NV R. apply drop_where_post in R as (Po & Np & K); auto. destruct Po. split.
+  - intros d n h I. rewrite p_depth0. eapply N1. eapply p_refs0; eauto.
+  - intros l h I O. destruct (N2 _ _ (p_refs0 _ I) O) as (db & Vd & d & n & Le & Io).
+    exists db. split; auto. exists d, n. split; auto.
+Qed.
+
+Lemma nested_step : forall s o s' ev,
+  wf s -> nested s -> disciplined s o = true -> step s o = (s', ev) -> nested s'.
+Proof.
+  intros s o s' ev W N Dsc St. pose proof N as [N1 N2].
+  destruct o; simpl in St, Dsc.
+  - (* PCreate *)
+    unfold with_dst in St. destruct (resolve s dst) as [l|x|] eqn:R; inv St; auto.
+    eapply nested_add; eauto; simpl; auto; try discriminate.
+    intros d n ->. apply resolve_var in R. subst dst. simpl in Dsc. now apply Nat.leb_le.
+  - (* PShare *)
+    apply andb_true_iff in Dsc as [Ow Dst]. unfold owning_at in Ow.
+    unfold with_src, with_dst in St. destruct (handle_at s src) as [[ls|x|] [h|]] eqn:Ha; try discriminate; try (inv St; auto; fail).
+    destruct (resolve s dst) as [l|x|] eqn:R; try (inv St; auto; fail).
+    destruct (h_own h && negb (alive s (h_tgt h))); inv St; auto.
+    eapply (nested_add s (add_ref s l h) l h); eauto.
+    + unfold add_ref. destruct (h_own h); reflexivity.
+    + unfold add_ref. destruct (h_own h); reflexivity.
+    + intros d n ->. apply resolve_var in R. subst dst. simpl in Dst. now apply Nat.leb_le.
+    + congruence.
+  - (* PBorrow *)
+    destruct src as [[d n| | | |]|]; try discriminate. destruct dst as [[d' n'| | | |]|]; try discriminate.
+    apply andb_true_iff in Dsc as [Dsc Ow]. apply andb_true_iff in Dsc as [L1 L2].
+    apply Nat.leb_le in L1, L2. unfold owning_at in Ow. unfold with_src, with_dst in St. simpl in St, Ow.
+    destruct (find_ref (LRoot (RVar d n)) s) as [h|] eqn:F; try discriminate.
+    inv St. eapply (nested_add s _ (LRoot (RVar d' n')) (mkH false (h_tgt h))); eauto.
+    + intros d0 n0 E. inversion E; subst. auto.
+    + intros _. exists d'. split; auto. exists d, n. split; auto.
+      apply find_ref_in_loc in F. destruct h as [ho ht]. simpl in *. now subst.
+  - (* PClone *)
+    unfold with_src, with_dst in St. destruct (handle_at s src) as [[ls|x|] [h|]] eqn:Ha; try (inv St; auto; fail).
+    destruct (resolve s dst) as [l|x|] eqn:R; try (inv St; auto; fail).
+    destruct (alive s (h_tgt h)); inv St;
+      (eapply nested_add; eauto; simpl; auto; try discriminate;
+       intros d n ->; apply resolve_var in R; subst dst; simpl in Dsc; now apply Nat.leb_le).
+  - discriminate.
+  - (* PDrop *)
+    destruct (resolve s p) as [l|x|] eqn:R; try (inv St; auto; fail).
+    eapply nested_drop_novar; eauto. intros d n.
+    destruct (loc_eqb l (LRoot (RVar d n))) eqn:E; auto. apply loc_eqb_eq in E. subst l.
+    apply resolve_var in R. subst p. discriminate.
+  - (* PTouch *)
+    unfold with_src in St. destruct (handle_at s p) as [[ls|x|] [h|]]; inv St; auto.
+  - (* PPush *)
+    inv St. split; simpl; auto. intros d n h I. apply N1 in I. lia.
+  - (* PPop *)
+    destruct (depth s) as [|d0] eqn:Dp; [inv St; auto|].
+    destruct (drop_where (in_scope (S d0)) s) as [s1 ev1] eqn:R. inv St.
+    apply drop_where_post in R as (Po & Np & K); auto. destruct Po. split; simpl.
+    + intros d n h I. pose proof (Np _ I) as F. simpl in F. apply p_refs0 in I. apply N1 in I.
+      apply Nat.eqb_neq in F. lia.
+    + intros l h I O. pose proof (Np _ I) as F. destruct (N2 _ _ (p_refs0 _ I) O) as (db & Vd & d & n & Le & Io).
+      exists db. split; auto. exists d, n. split; auto. apply K; auto. simpl.
+      destruct l as [[dl nl| | | |]|]; simpl in Vd; try discriminate. inversion Vd; subst.
+      simpl in F. apply Nat.eqb_neq in F. apply Nat.eqb_neq. pose proof (N1 _ _ _ (p_refs0 _ I)). lia.
+  - (* PCallBegin *)
+    inv St. split; simpl.
+    + intros d n h I. apply in_map_iff in I as ([l0 h0] & E & I). simpl in E.
+      destruct (is_conv l0) eqn:C.
+      * destruct l0 as [[]|]; simpl in *; try discriminate.
+      * inversion E; subst. eauto.
+    + intros l h I O. apply in_map_iff in I as ([l0 h0] & E & I). simpl in E.
+      assert (l0 = l /\ h0 = h) as [-> ->].
+      { destruct (is_conv l0) eqn:C; [|now inversion E].
+        inversion E; subst. destruct (N2 _ _ I O) as (db & Vd & _). destruct l0 as [[]|]; simpl in *; discriminate. }
+      destruct (N2 _ _ I O) as (db & Vd & d & n & Le & Io). exists db. split; auto. exists d, n. split; auto.
+      apply in_map_iff. exists (LRoot (RVar d n), mkH true (h_tgt h)). split; auto.
+  - (* PCallEnd *)
+    destruct (calls s) as [|[|c]]; try (inv St; auto; fail).
+    destruct (drop_where (fun l => is_param_of lvl l || is_conv l) s) as [s1 ev1] eqn:R. inv St.
+    assert (Ns : nested s1) by (eapply nested_drop_novar; eauto; intros; reflexivity). exact Ns.
+  - (* PStmtEnd *) eapply nested_drop_novar; eauto; intros; reflexivity.
+  - (* PCheckpoint *) inv St. auto.
+  - (* PEngineEnd *)
+    apply drop_where_post in St as (Po & Np & K); auto. destruct Po. split.
+    + intros d n h I. apply Np in I. discriminate.
+    + intros l h I O. pose proof (Np _ I) as F. destruct (N2 _ _ (p_refs0 _ I) O) as (db & Vd & _).
+      destruct l as [[]|]; simpl in *; discriminate.
+  - (* PCxxRelease *) eapply nested_drop_novar; eauto; intros; reflexivity.
+Qed.
+
+Lemma nested_init : nested init.
+Proof. split; simpl; intros; contradiction. Qed.
+
+Lemma disciplined_trace_covered : forall ops s,
+  wf s -> nested s -> disciplined_run ops s = true -> Forall covered (trace ops s).
+Proof.
+  induction ops as [|o ops IH]; intros s W N D; simpl.
+  - constructor; [now apply nested_covered|constructor].
+  - simpl in D. apply andb_true_iff in D as [D1 D2]. constructor; [now apply nested_covered|].
+    destruct (step s o) as [s1 e1] eqn:St. simpl in *. apply IH; auto.
+    + exact (sp_wf _ _ _ (step_spost _ _ _ _ W St)).
+    + eapply nested_step; eauto.
+Qed.
+
+(* a history that follows the scope discipline never uses an object after its destruction *)
+Theorem no_use_after_free_if_nested : forall ops s ev,
+  disciplined_run ops init = true -> run ops init = (s, ev) -> forall e, In e ev -> is_fault e = false.
+Proof.
+  intros ops s ev D R. eapply no_use_after_free_if_covered; eauto.
+  apply disciplined_trace_covered; auto using wf_init, nested_init.
+Qed.
